@@ -8,7 +8,7 @@
 set -u
 C="${1:?candidate dir}"; NAME="${2:?name}"
 export CARGO_NET_OFFLINE=true CARGO_BUILD_JOBS=${CARGO_BUILD_JOBS:-10} CARGO_PROFILE_DEV_DEBUG=0 CARGO_PROFILE_TEST_DEBUG=0 CARGO_INCREMENTAL=0
-S=/tmp/seedconf; WT=$S/wt; export CARGO_TARGET_DIR=$S/target
+S=${SEEDCONF_DIR:-/tmp/seedconf}; WT=$S/wt; export CARGO_TARGET_DIR=$S/target
 LOG=$C/confirm.log; : > $LOG
 mkdir -p $S
 git -C /repo worktree remove --force $WT 2>/dev/null; rm -rf $WT
